@@ -3,7 +3,7 @@
 M: Neighbours.tla: OwnRegistrations (an issuer answers for exactly what was registered WITH IT, under the index key it was
    last given; asking changes nothing) holds for the intended design over every history of 5 operations on two issuers
    and two origins, and fails for a shared table, a get-or-create accessor and insert-if-absent registration.
-R: Gen_Neighbours emits EVERY history of 3 operations (1 728); each is replayed on two real issuers in one process,
+R: Gen_Neighbours emits EVERY history of 3 operations (1 728; thorough 4: 20 736); each is replayed on two real issuers in one process,
    alternately built from one token key and from two.
 V: Trace_Neighbours advances the specification and requires the recorded answers and the matched index key version to
    be the model's."""
@@ -25,6 +25,8 @@ def key(e, case):
 
 
 def run(ctx):
+    if ctx.thorough:
+        ctx.prove("NeighboursProofs")   # TLAPS: OwnRegistrations for any issuers, any origins, histories of any length
     ctx.model_check("Neighbours", "MC_Neighbours.cfg", workers=4, overrides={"Depth": ctx.pick(4, 5)})
     for cfg in NEG:
         ctx.model_check("Neighbours", cfg, workers=1, expect_violation="Invariant OwnRegistrations is violated")
@@ -34,8 +36,6 @@ def run(ctx):
         if not steps:
             raise vlib.Infra("unparsable behaviour of Gen_Neighbours: %r" % b)
         beh.append([list(s) for s in steps])
-    if ctx.thorough:   # (20 736 histories of 4: a seeded sixth of them)
-        beh = [h for i, h in enumerate(beh) if (i + ctx.seed) % 6 == 0]
     bpath = os.path.join(ctx.scratch, "neighbours-behaviours.json")
     vlib.json.dump(beh, open(bpath, "w"))
     ctx.build_harness()
